@@ -156,6 +156,15 @@ func (c *Ctx) whoMayCall(rule string, target *ssa.Function, what string, allowed
 	} else {
 		c.Held(rule, what, c.P.FuncPos(target), "all "+itoa(len(refs))+" uses are in {"+join(names)+"}")
 	}
+	if c.Tier == "thorough" {
+		// cross-check with the whole-program VTA call graph (calls through method values,
+		// closures stored in fields, generated stubs): its callers must be in the allowed set too
+		vn := callerNames(c.P.callersOf(c.P.VTA(), target))
+		vextra := subset(vn, allowed)
+		c.Stat("vta_cross_checks", 1)
+		c.Check(len(vextra) == 0, rule+"/vta", what, c.P.FuncPos(target),
+			"whole-program VTA call graph agrees: callers {"+join(vn)+"}", "VTA call graph finds callers outside the allowed set: "+join(vextra))
+	}
 	return refs
 }
 
